@@ -1,0 +1,87 @@
+//! Verification hook (compiled only with `--cfg unitedtraders_aeron_rs_verif`).
+//!
+//! Every `AtomicBuffer` accessor (and the two raw-pointer tail accessors of
+//! `ExclusiveTermAppender`) reports *that it is about to run* to an optional process-global
+//! callback: which accessor, the absolute address, the length in bytes and, for writes and
+//! read-modify-writes, the operand values. Accessors that call other accessors report once
+//! (outermost call only). The callback is how the verification harness observes and
+//! deterministically schedules shared-memory accesses; the hook never changes behaviour.
+
+use std::cell::Cell;
+use std::sync::atomic::{AtomicUsize, Ordering};
+
+#[derive(Copy, Clone, Debug, PartialEq, Eq)]
+pub enum AccessKind {
+    Get,
+    Put,
+    GetVolatile,
+    PutOrdered,
+    PutAtomicI64,
+    CompareAndSetI32,
+    CompareAndSetI64,
+    GetAndAddI64,
+    AddI64Ordered,
+    PutBytes,
+    GetBytes,
+    /// `copy_from`: `addr` is the destination, `val` the source address
+    CopyFrom,
+    SetMemory,
+    /// a raw pointer or slice to `[addr, addr+len)` escapes for reading (as_ref, as_slice, as_sub_slice, get_string*)
+    RegionRead,
+    /// a raw pointer or slice escapes for writing (overlay_struct, as_mutable_slice, put_string*)
+    RegionWrite,
+    /// a sub-buffer is created (no memory access)
+    View,
+    ExclRawTail,
+    ExclPutRawTailOrdered,
+}
+
+pub type Callback = fn(kind: AccessKind, addr: usize, len: usize, val: i64, val2: i64);
+
+static CALLBACK: AtomicUsize = AtomicUsize::new(0);
+
+thread_local! {
+    static NESTING: Cell<u32> = const { Cell::new(0) };
+}
+
+/// Install (or with `None` remove) the process-global callback.
+pub fn set_callback(cb: Option<Callback>) {
+    CALLBACK.store(cb.map(|f| f as usize).unwrap_or(0), Ordering::SeqCst);
+}
+
+/// RAII marker of "inside an accessor"; only the outermost accessor reports.
+pub struct Scope;
+
+impl Drop for Scope {
+    fn drop(&mut self) {
+        NESTING.with(|n| n.set(n.get() - 1));
+    }
+}
+
+#[inline]
+pub fn enter(kind: AccessKind, addr: usize, len: usize, val: i64, val2: i64) -> Scope {
+    let outermost = NESTING.with(|n| {
+        let v = n.get();
+        n.set(v + 1);
+        v == 0
+    });
+    if outermost {
+        let cb = CALLBACK.load(Ordering::SeqCst);
+        if cb != 0 {
+            let f: Callback = unsafe { std::mem::transmute::<usize, Callback>(cb) };
+            f(kind, addr, len, val, val2);
+        }
+    }
+    Scope
+}
+
+/// The first (up to) eight bytes of a value, little endian, for reporting what is written.
+#[inline]
+pub fn bits_of<T>(val: &T) -> i64 {
+    let n = std::mem::size_of::<T>().min(8);
+    let mut out = 0i64;
+    unsafe {
+        std::ptr::copy_nonoverlapping(val as *const T as *const u8, &mut out as *mut i64 as *mut u8, n);
+    }
+    out
+}
